@@ -35,11 +35,11 @@ func RunReplay(funcs map[string]func()) {
 		v := &vecs[i]
 		f := funcs[v.Harness]
 		if f == nil {
-			fmt.Printf("ZZ-OUTCOME %d no-such-harness %s\n", i, v.Harness)
+			fmt.Fprintf(Out, "ZZ-OUTCOME %d no-such-harness %s\n", i, v.Harness)
 			continue
 		}
 		out := RunOne(f, &v.Vector)
-		fmt.Printf("ZZ-OUTCOME %d %s\n", i, strings.ReplaceAll(out, "\n", " | "))
+		fmt.Fprintf(Out, "ZZ-OUTCOME %d %s\n", i, strings.ReplaceAll(out, "\n", " | "))
 	}
 }
 
